@@ -145,13 +145,17 @@ theorem peekTok_np (p : PState) : ∀ x, peekTok p ≠ .panic x := by
 /-- functions that only consume tokens / edit tables keep the control state -/
 def SameCtl (p q : PState) : Prop := q.state = p.state ∧ q.states = p.states
 
-theorem processDirectives_ctl (fuel : Nat) (p : PState) (v : Bool) :
-    (∀ x, processDirectives fuel p v ≠ .panic x) ∧
-    (∀ q, processDirectives fuel p v = .ok q → SameCtl p q) := by
-  induction fuel generalizing p v with
-  | zero => simp [processDirectives, SameCtl]
+theorem directivesLoop_ctl (fuel : Nat) (p : PState) (v : Bool) (acc : List (Str × Str)) :
+    (∀ x, directivesLoop fuel p v acc ≠ .panic x) ∧
+    (∀ q a, directivesLoop fuel p v acc = .ok (q, a) → SameCtl p q) := by
+  induction fuel generalizing p v acc with
+  | zero =>
+    refine ⟨by simp [directivesLoop], ?_⟩
+    intro q a h
+    simp only [directivesLoop, Res.ok.injEq, Prod.mk.injEq] at h
+    rw [← h.1]; exact ⟨rfl, rfl⟩
   | succ n ih =>
-    unfold processDirectives
+    unfold directivesLoop
     cases hp : peekTok p with
     | err e => simp [Bind.bind]
     | panic x => exact absurd hp (peekTok_np p x)
@@ -160,12 +164,38 @@ theorem processDirectives_ctl (fuel : Nat) (p : PState) (v : Bool) :
       split
       · split
         · simp
-        · have := ih (skipTok { p with tags := [] }) true
-          exact ⟨this.1, fun q hq => by simpa [SameCtl] using this.2 q hq⟩
+        · have := ih (skipTok p) true acc
+          exact ⟨this.1, fun q a hq => by simpa [SameCtl] using this.2 q a hq⟩
       · rename_i h pf _
-        have := ih (skipTok { p with tags := [(h, pf)] }) v
-        exact ⟨this.1, fun q hq => by simpa [SameCtl] using this.2 q hq⟩
-      · simp [SameCtl]
+        split
+        · have := ih (skipTok p) v acc
+          exact ⟨this.1, fun q a hq => by simpa [SameCtl] using this.2 q a hq⟩
+        · split
+          · simp
+          · have := ih (skipTok p) v (acc ++ [(h, pf)])
+            exact ⟨this.1, fun q a hq => by simpa [SameCtl] using this.2 q a hq⟩
+      · refine ⟨by simp, ?_⟩
+        intro q a h
+        simp only [Res.ok.injEq, Prod.mk.injEq] at h
+        rw [← h.1]; exact ⟨rfl, rfl⟩
+
+theorem processDirectives_ctl (fuel : Nat) (p : PState) (v : Bool) :
+    (∀ x, processDirectives fuel p v ≠ .panic x) ∧
+    (∀ q, processDirectives fuel p v = .ok q → SameCtl p q) := by
+  unfold processDirectives
+  have h := directivesLoop_ctl fuel p v []
+  cases hd : directivesLoop fuel p v [] with
+  | err e => simp [Bind.bind]
+  | panic x => exact absurd hd (h.1 x)
+  | ok r =>
+    obtain ⟨q0, a⟩ := r
+    have hc := h.2 q0 a hd
+    simp only [Bind.bind]
+    refine ⟨by simp, ?_⟩
+    intro q hq
+    simp only [Res.ok.injEq] at hq
+    rw [← hq]
+    exact ⟨hc.1, hc.2⟩
 
 theorem skipDocEnds_ctl (fuel : Nat) (p : PState) :
     (∀ x, skipDocEnds fuel p ≠ .panic x) ∧ (∀ q, skipDocEnds fuel p = .ok q → SameCtl p q) := by
